@@ -322,6 +322,30 @@ def item_generators_exhaustive(repo: Repo, rep, rule: str) -> int:
             except Unsupported as exc:
                 rep.defer(f"{short}.{q}: the item generator could not be evaluated ({exc})")
                 continue
+            # malformed input: 1-3 stray bytes after the last item, or the last item cut short, is not something to skip
+            # over - the PDU is invalid (Evt19), so the generator must raise
+            bad_m = None
+            try:
+                for cnt in range(0, 3):
+                    for items in itertools.product((payloads if kind != "uid" else payloads[1:])[:3], repeat=cnt):
+                        stream, _w = build(kind, items)
+                        variants = [stream + b"\x07" * k_ for k_ in ((1, 2, 3) if kind != "uid" else (1,))]
+                        if stream:
+                            variants.append(stream[:-1])
+                        for bs in variants:
+                            it.steps = 0
+                            pts += 1
+                            try:
+                                got = it.call_function(fn, dict(zip(params[-1:], [bs])))
+                            except Raised:
+                                continue
+                            if bad_m is None:
+                                bad_m = (len(items), len(bs) - len(stream), got)
+            except Unsupported as exc:
+                rep.defer(f"{short}.{q}: the item generator could not be evaluated on malformed input ({exc})")
+                continue
+            if bad_m is not None:
+                rep.fail(rule, f"{short}.{q}", f"{bad_m[0]} item(s) {'followed by ' + str(bad_m[1]) + ' stray byte(s)' if bad_m[1] > 0 else 'with the last one cut short by a byte'} -> {len(bad_m[2]) if isinstance(bad_m[2], list) else bad_m[2]} item(s), no error", "bytes that cannot be an item (1-3 left-over bytes, a truncated last item) are skipped silently instead of failing the decode: a malformed PDU is then accepted as if it were well-formed - an A-ASSOCIATE-RQ / -AC that PS3.8 makes an invalid PDU (Evt19: A-ABORT) is negotiated and accepted", mod=m, node=fn)
             n += 1
             if bad is None:
                 rep.ok(rule, f"{short}.{q} :: {pts} byte strings of 0..3 items", "every item comes out once, in order, with its bytes")
